@@ -102,11 +102,12 @@ func (f *scriptedFilterFactory) CreateFilterChain(ctx context.Context, cb api.St
 }
 
 type scriptedFilter struct {
-	f     *scriptedFilterFactory
-	key   string
-	rh    api.StreamReceiverFilterHandler
-	sh    api.StreamSenderFilterHandler
-	calls int
+	f       *scriptedFilterFactory
+	key     string
+	rh      api.StreamReceiverFilterHandler
+	sh      api.StreamSenderFilterHandler
+	calls   int
+	mutResp bool
 }
 
 func (s *scriptedFilter) OnDestroy()                                                {}
@@ -138,6 +139,15 @@ func (s *scriptedFilter) OnReceive(ctx context.Context, headers api.HeaderMap, b
 	nth := s.calls
 	s.calls++
 	FLog.add(FilterCall{Filter: s.f.name, Kind: "recv", Phase: s.f.phase, Key: s.key, Tok: hdr(headers, "tok", "X-Tok"), Nth: nth})
+	if fm := hdr(headers, "x-fm"); fm != "" && s.f.name == "f0" && headers != nil {
+		s.mutResp = strings.Contains(fm, "resp")
+		// C01: a filter that modifies the request: one header added, one removed (if present), optionally a new body
+		headers.Set("x-mut", "by-"+s.f.name)
+		headers.Del("k1")
+		if strings.Contains(fm, "body") {
+			s.rh.SetRequestData(buffer.NewIoBufferString("mutated-body-" + hdr(headers, "tok")))
+		}
+	}
 	v := s.verdict(headers)
 	if nth > 0 {
 		v = "continue" // re-run after its own re-match / re-choose request
@@ -181,6 +191,9 @@ func (s *scriptedFilter) OnReceive(ctx context.Context, headers api.HeaderMap, b
 
 func (s *scriptedFilter) Append(ctx context.Context, headers api.HeaderMap, buf api.IoBuffer, trailers api.HeaderMap) api.StreamFilterStatus {
 	FLog.add(FilterCall{Filter: s.f.name, Kind: "send", Key: s.key})
+	if s.f.name == "f0" && s.mutResp && headers != nil {
+		headers.Set("x-rmut", "by-"+s.f.name) // C01: ... and the response
+	}
 	return api.StreamFilterContinue
 }
 
